@@ -248,9 +248,13 @@ def _f17sub(op, a, out, msg):
 
 def _f13q(op, a, out, msg):
     """F13 seen through subq: only |seconds| == 60.0 exactly, everything else in range and the length right."""
-    if op.name != "subq" or "out of range" not in msg or op.last is None:
+    if op.name != "subq" or "out of range" not in msg:
         return False
-    _, _, _, d, h, mi, s_ = op.last
+    import re
+    mt = re.search(r"out of range: \(([^)]*)\)", msg)      # (the op object of another shard is not at hand)
+    if not mt:
+        return False
+    d, h, mi, s_ = (float(x) for x in mt.group(1).split(","))
     return abs(s_) == 60.0 and abs(h) < 24 and abs(mi) < 60
 
 
